@@ -119,13 +119,21 @@ class Transaction:
         _validate_schema_against_table; this closes the same hole on the
         file-level API (#49).
 
-        Only parquet files can be checked (the schema lives in the footer);
-        other formats are queued unchecked, as before.
+        Only parquet files can be checked (the schema lives in the footer) and
+        only parquet files can be scanned, so other formats are rejected.
         """
         fmt = data_file.file_format
         fmt_name = fmt.value if isinstance(fmt, FileFormat) else str(fmt)
         if fmt_name.lower() != FileFormat.PARQUET.value:
-            return
+            # Every read path opens data files as parquet, so a file labelled
+            # avro/orc can be neither verified here nor scanned later: queueing
+            # it unchecked let a divergent (or unreadable) file commit and then
+            # make every subsequent scan fail.
+            raise ValueError(
+                f"Data file '{data_file.file_path}' is declared as '{fmt_name}', but only "
+                f"parquet files can be verified against the table schema and scanned. "
+                f"Refusing to append a file that would make table scans fail."
+            )
 
         import pyarrow.parquet as pq
 
